@@ -71,6 +71,7 @@ func forEachPass(r *ev.Rec, sp schedSpace, judge func(env *SchedEnv, out schedOu
 				digests[out.Digest] = true
 			}
 			ex.Explore()
+			noteDiverged(l, ex, "prefix")
 			l.Transitions += int64(ex.Points)
 			if ex.Capped {
 				l.Outcome("schedule-exploration-capped")
